@@ -23,6 +23,8 @@ SUFFIX_TABLE = {"": "production", ".n": "nightly", ".nightly": "nightly", ".t": 
 create_strategy = st.fixed_dictionaries({
     "release": gen.release_desc(), "layered": st.booleans(), "base_product": gen.release_desc(with_internal=False),
     "type": st.sampled_from(gen.COMPOSE_TYPES), "date": gen.date8, "respin": gen.respin,
+    # everything else a compose carries when its id is created: a milestone label, the final flag
+    "label": gen.label, "final": st.booleans(),
     # ids are created for composes that have content: top-level variants present or not (the library looks at them for one
     # release family), and that family itself (RHEL 5 on RHEL 5) now and then
     "variants": st.lists(st.sampled_from(["Client", "Server", "Workstation", "AppStream"]), max_size=3, unique=True),
@@ -55,6 +57,8 @@ def create_case(case):
     if case["layered"] or case.get("rhel5"):
         cim.fill_release(ci.base_product, case["base_product"])
     ci.compose.type, ci.compose.date, ci.compose.respin = case["type"], case["date"], case["respin"]
+    if case.get("label"):
+        ci.compose.label, ci.compose.final = case["label"], bool(case.get("final"))
     cid = must("create", ci.create_compose_id)
     rel = case["release"]
     prefix = "%s-%s" % (rel["short"], rel["version"]) + ("" if rel["type"] == "ga" else "-" + rel["type"])
@@ -83,7 +87,7 @@ def create_case(case):
             obj.compose.id, nid, got, (cur["date"], cur["type"], cur["respin"])))
         obj.compose.id = nid
     run = has_digit_run(rel["version"]) or has_digit_run(rel["short"]) or (case["layered"] and has_digit_run(case["base_product"]["version"]))
-    labels = [case["type"]] + (["layered"] if case["layered"] else []) + (["digit-run"] if run else []) + (["created-again"] if case.get("next") else []) + (["with-variants"] if case.get("variants") else []) + (["rhel5-family"] if case.get("rhel5") else [])
+    labels = [case["type"]] + (["layered"] if case["layered"] else []) + (["digit-run"] if run else []) + (["created-again"] if case.get("next") else []) + (["with-variants"] if case.get("variants") else []) + (["rhel5-family"] if case.get("rhel5") else []) + (["labelled"] if case.get("label") else [])
     return {"nontrivial": case["type"] != "production" or case["respin"] > 9 or run or case["layered"], "labels": labels}
 
 
